@@ -744,6 +744,9 @@ class PendingAssign(PendingNode[Assign | AnnAssign]):
         return False
 
     def get_result(self) -> list[expr]:
+        if isinstance(self.node, AnnAssign):
+            utils.check_dropped_annotation(self.node.annotation)
+
         if self.node.value is None:
             return []
 
@@ -950,6 +953,15 @@ class PendingFunctionDef(_PendingCompoundStmt[FunctionDef]):
 
         # copy args and filter annotations
         original_args = node.args
+        utils.check_dropped_annotation(node.returns)
+        for _arg in (
+            original_args.posonlyargs
+            + original_args.args
+            + original_args.kwonlyargs
+            + [original_args.vararg, original_args.kwarg]
+        ):
+            if _arg is not None:
+                utils.check_dropped_annotation(_arg.annotation)
         self.converted_args = converted_args = arguments(
             posonlyargs=[],
             args=[],
